@@ -39,7 +39,8 @@ def wrapper_shape(run, f, sp):
         roots.append(fnname)
         key = fnname
         args = [tr.norm(a) for a in tr.call_args(site.bb)]
-        d = sp.resolve_to_root_param(b, args[0])
+        d = deadline_param(run, f, sp, site, tr, args[0], fnname) if fn_path(b.blocks[site.bb].term) == "tokio::time::timeout::timeout_at" \
+            else sp.resolve_to_root_param(b, args[0])
         rootfn = f.fns.get(site.root)
         okd = d[0] == "param" and d[1] == site.root and rootfn is not None and d[2] - 1 < len(rootfn["inputs"]) and \
             f.ty(rootfn["inputs"][d[2] - 1]).is_adt("std::time::Duration")
@@ -69,6 +70,35 @@ def wrapper_shape(run, f, sp):
     run.require(len(roots) >= 4 and sum(1 for r in roots if r.startswith("blocking_")) >= 2, "O10.1", "timeout-site-floor",
                 "timeout sites found: %s (expected the two async wrappers and the two blocking helpers)" % roots, "%d sites" % len(roots))
     return durations
+
+
+def deadline_param(run, f, sp, site, tr, dl, fnname):
+    """timeout_at(deadline, fut): the deadline must be `Instant::now()` advanced by the caller's Duration with a total
+    (non-panicking) addition: `now.checked_add(d).unwrap_or*(..)`. `now + d` panics for large d (tokio's own
+    `timeout` saturates to 'far future'), which would turn a huge timeout into a panic instead of 'no deadline'."""
+    dl = strip_wrappers(dl)
+    calls, seen, work = [], set(), [dl]
+    while work and len(seen) < 200:
+        for t in sendpaths.subterms(strip_wrappers(work.pop())):
+            if t[0] == "call" and t[1] not in seen:
+                seen.add(t[1])
+                calls.append((t, t[2] or ""))
+                work.extend(tr.norm(a) for a in tr.call_args(t[1]))
+    adds = [t for t, p in calls if p.endswith("Add>::add") or p.endswith("Add::add") or p.endswith("add_assign") or "as std::ops::Add" in p]
+    run.require(not adds, "O10.1", "deadline-addition-total:%s" % fnname,
+                "the absolute deadline of %s is computed with `Instant + Duration`, which panics on overflow: a very large caller timeout becomes a panic instead of an (effectively) unbounded wait" % fnname,
+                "no panicking Instant + Duration in the deadline", loc=site.loc)
+    nows = [t for t, p in calls if p.endswith("Instant::now")]
+    chk = [t for t, p in calls if p.endswith("Instant::checked_add")]
+    if adds:
+        chk = adds
+    if len(chk) != 1 or len(nows) != 1:
+        return ("other", "deadline %s" % show(dl))
+    a = [tr.norm(x) for x in tr.call_args(chk[0][1])]
+    base = strip_wrappers(a[0])
+    if not (base[0] == "call" and base[1] == nows[0][1]):
+        return ("other", "deadline base %s" % show(base))
+    return sp.resolve_to_root_param(site.body, a[1])
 
 
 def _await_root(tr, poll_bb):
